@@ -349,7 +349,7 @@ func (w *World) dumpInbox(eui protocol.EUI) string {
 	}
 	var s []string
 	for i := len(l) - 1; i >= 0; i-- { // oldest first
-		s = append(s, hx(l[i].Data))
+		s = append(s, "#"+hx(l[i].Data))
 	}
 	return "inbox " + euiN(eui) + " [" + strings.Join(s, ",") + "]"
 }
